@@ -257,8 +257,9 @@ impl MemStateMachine {
 impl RaftSnapshotBuilder<AppTypeConfig> for Arc<MemStateMachine> {
     async fn build_snapshot(&mut self) -> Result<Snapshot<AppTypeConfig>, io::Error> {
         let state_machine = self.state_machine.read().await;
-        let data = bincode::serialize(&state_machine.data)
-            .map_err(|e| io::Error::new(io::ErrorKind::InvalidData, e))?;
+        // The application state lives in the wrapped state machine; `state_machine.data`
+        // is never filled, so serialising it produced an empty snapshot.
+        let data = self.sm.snapshot();
 
         let last_applied_log = state_machine.last_applied_log;
         let last_membership = state_machine.last_membership.clone();
@@ -360,14 +361,10 @@ impl RaftStateMachine<AppTypeConfig> for Arc<MemStateMachine> {
             data: snapshot.into_inner(),
         };
 
-        let updated_state_machine_data: BTreeMap<String, String> =
-            bincode::deserialize(&new_snapshot.data)
-                .map_err(|e| io::Error::new(io::ErrorKind::InvalidData, e))?;
-
         let updated_state_machine = StateMachineData {
             last_applied_log: meta.last_log_id,
             last_membership: meta.last_membership.clone(),
-            data: updated_state_machine_data.clone(),
+            data: BTreeMap::new(),
         };
 
         let mut state_machine = self.state_machine.write().await;
@@ -376,11 +373,9 @@ impl RaftStateMachine<AppTypeConfig> for Arc<MemStateMachine> {
         let mut current_snapshot = self.current_snapshot.write().await;
         drop(state_machine);
 
-        // Also restore into the state machine
-        let snapshot_bytes = bincode::serialize(&updated_state_machine_data)
-            .map_err(|e| io::Error::new(io::ErrorKind::InvalidData, e))?;
+        // Restore the application state machine from the sender's snapshot bytes
         self.sm
-            .restore(&snapshot_bytes)
+            .restore(&new_snapshot.data)
             .map_err(|e| io::Error::new(io::ErrorKind::Other, e))?;
 
         *current_snapshot = Some(new_snapshot);
